@@ -21,7 +21,7 @@ ASSUMPTIONS = [
     "sequential consistency at the granularity of Python attribute loads/stores and of the labelled lock, condition, socket and trigger operations (DESIGN.md 4.3); pre-emption inside C code is not modelled",
     "the client keeps reading: the socket is write-ready whenever it is polled for writing; the poll timeout does not exist (select blocks until a descriptor is ready or the trigger was pulled)",
     "maintenance() and cancel() (server shutdown) are outside the model; one channel per I/O loop",
-    "outbuf_high_watermark >= 0, and the runs are outside the one open finding class (the flush of a worker-side send_continue raises through service())",
+    "outbuf_high_watermark >= 0 (no class of runs is excluded)",
 ]
 
 EXPLORE_QUICK = ["0 1 2 0 1 1 1.3 400000 1 r", "0 2 0 1 1 2 1.3 400000 0 r.rr", "1 3 2 0 2 1 2 400000 1 rr"]
@@ -84,19 +84,15 @@ class Book:
 
     def add(self, kind, policy, sc, world, cls, probs):
         ctx = self.ctx
-        kf = cw.classify(sc, world, cls, probs)
+        kf = None      # no known-finding class is open: every failing run is a violation
         self.kinds[kind] += 1
         self.policies[policy] += 1
         self.stats["end:" + cls] += 1
         if probs:
             rep = cw.replay_dict(sc, world, cls, probs)
-            if kf is None:
-                self.all_monitor = False
-                ctx.report("monitor:" + probs[0].split(":")[0][:60] + ":" + _hash(sc),
-                           "quiescent state of the real server violates C05: " + "; ".join(probs), rep)
-            else:
-                self.stats["known:" + kf] += 1
-                ctx.report(kf, "known finding reproduced: " + "; ".join(probs), rep, kf_class=kf)
+            self.all_monitor = False
+            ctx.report("monitor:" + probs[0].split(":")[0][:60] + ":" + _hash(sc),
+                       "quiescent state of the real server violates C05: " + "; ".join(probs), rep)
         line = cw.conform_lines(world, sc) if (world.channel is not None and self.runner is not None) else None
         if line is not None:
             self.distinct.add(_hash(line.split(" ")[7:] and [t.rsplit(";", 1)[0] for t in line.split(" ")[7:]]))
@@ -147,11 +143,6 @@ class Book:
                                      "states_compared": int(f["compared"]), "schedule_len": len(choices)})
 
 
-# One replay (scenario + schedule) per finding class, found by this check's own search; re-run on every
-# check so that a finding that stops reproducing is noticed.
-FINDING_REPLAYS = {"kf_c05_continue_raises": {"choices": [0, 0, 0, 0, 1, 0, 0, 0, 0, 0, 0, 0, 0, 0, 0, 0, 1, 0, 0, 0, 0, 0, 0, 0, 0, 0, 0, 0, 0, 0, 0], "scenario": {"adj": {"channel_request_lookahead": 0, "outbuf_high_watermark": 16777216, "send_bytes": 150}, "client_close": False, "gran": "locks", "poll": False, "recv_faults": {}, "reqs": [{"chunks": [10], "cl": True, "path": "/a"}, {"chunks": [5], "cl": True, "expect": True, "path": "/b"}], "segs": [[0, 1], [2]], "send_plan": [["err", 113], None, 0, ["err", 113], 0], "sndbuf": 30, "workers": 1}}}
-
-
 def run(ctx):
     import time
     t0 = time.time()
@@ -177,7 +168,7 @@ def run(ctx):
             f = dict(t.split("=", 1) for t in ans.split() if "=" in t and not t.startswith("witness"))
             explored.append({"instance": args, "states": int(f.get("states", 0)), "quiescent": int(f.get("quiescent", 0)),
                              "bad": int(f.get("bad", -1)), "invbad": int(f.get("invbad", -1)), "truncated": f.get("truncated")})
-        ctx.oblige("model explorer: on every reachable state of the small instances inv_ok holds and no quiescent state outside the finding classes fails c05_ok",
+        ctx.oblige("model explorer: on every reachable state of the small instances inv_ok holds and no quiescent state fails c05_ok / app_ok",
                    all(e["bad"] == 0 and e["invbad"] == 0 for e in explored), json.dumps(explored))
 
     book = Book(ctx, runner)
@@ -200,23 +191,12 @@ def run(ctx):
                            "per_preemption_level": res["per_preemption_level"], "truncated": res["truncated"]})
     book.flush()
 
-    # (e) the known findings must still reproduce on the real classes (otherwise say so)
-    reproduced = {}
-    for kf, rep in FINDING_REPLAYS.items():
-        w, cls, probs = cw.run_one(rep["scenario"], schedule=rep["choices"], max_steps=rep.get("max_steps", 4000))
-        got = cw.classify(rep["scenario"], w, cls, probs)
-        reproduced[kf] = (got == kf)
-        if got == kf:
-            ctx.report(kf, "known finding reproduced: " + "; ".join(probs), cw.replay_dict(rep["scenario"], w, cls, probs), kf_class=kf)
-        else:
-            ctx.notes.append("finding %s no longer reproduces with its stored replay (now: %s %s)" % (kf, cls, probs))
-
     ctx.oblige("K-chan: every real trace is a run of Model/ChanWake.v with equal abstract state after every operation",
                book.all_conform and book.validated > 0, "validated=%d" % book.validated)
     ctx.oblige("K-verdict: the model's end state (quiescent, c05_ok) agrees with the monitor on the real end state",
                book.all_verdicts)
     ctx.oblige("K-inv: inv_ok holds on every model state visited by a real trace", book.inv_ok)
-    ctx.oblige("monitor: every quiescent end state of the real server satisfies C05 (outside open known-finding classes)",
+    ctx.oblige("monitor: every quiescent end state of the real server satisfies C05",
                book.all_monitor)
 
     if not props_ok and not ctx.violations:
@@ -243,7 +223,6 @@ def run(ctx):
         "model_explorer": explored,
         "shape_methods": len(cw.EXPECTED_SHAPE),
         "seconds_build_and_explore": round(t_build, 1), "seconds_runs": round(time.time() - t0 - t_build, 1),
-        "findings_reproduced": reproduced,
         "samples": book.samples,
         "distribution": "58%% main generator (1-3 requests, 1-3 chunks of 1..600 bytes, send_bytes in {1,50,150} <= watermark in {1,60,120,250,16MiB}, "
                         "lookahead 0..2, 1-3 workers, partial-send plans with EWOULDBLOCK/EPIPE/EHOSTUNREACH, 8%% recv faults, 30%% client close, "
@@ -255,8 +234,7 @@ def run(ctx):
 def replay(data):
     sc = data["scenario"]
     w, cls, probs = cw.run_one(sc, schedule=data.get("choices", []), max_steps=data.get("max_steps", 4000))
-    kf = cw.classify(sc, w, cls, probs)
-    print("end=%s problems=%s class=%s final=%s" % (cls, probs, kf, {k: v for k, v in w.final.items() if k != "blocked"}))
+    print("end=%s problems=%s final=%s" % (cls, probs, {k: v for k, v in w.final.items() if k != "blocked"}))
     bad = bool(probs)
     if "real trace is not a run" in data.get("what", "") or "model" in str(data.get("expected", "")):
         runner = vcommon.Runner(os.path.join(vcommon.VERIF, "ocaml", "chanwake", "runner"))
